@@ -14,6 +14,7 @@ import (
 	"verifharness/props/c07"
 	"verifharness/props/c08"
 	"verifharness/props/c13"
+	"verifharness/props/c16"
 	"verifharness/props/c17"
 )
 
@@ -23,6 +24,7 @@ var registry = map[string]func() fw.Prop{
 	"C07": func() fw.Prop { return c07.Prop{} },
 	"C08": func() fw.Prop { return c08.Prop{} },
 	"C13": func() fw.Prop { return c13.Prop{} },
+	"C16": func() fw.Prop { return c16.Prop{} },
 	"C17": func() fw.Prop { return c17.Prop{} },
 }
 
